@@ -5,7 +5,7 @@ Helper lemmas for C05: dict look-ups after `dset`, the `Coherent` invariant unde
 -/
 import GT.Lemmas.Rep
 
-namespace GT
+namespace GT.RepW
 open Matrix
 
 section dict
@@ -430,4 +430,4 @@ theorem compose_coherent {h : DMat n n R → DMat n n R → M? (DMat m m S)} {ρ
     exact hwf.invol g A hA
 
 end Rep
-end GT
+end GT.RepW
